@@ -35,8 +35,8 @@ findings = "\n".join(f)
 
 # ---- seeds
 res = {}
-if os.path.exists('/verif/out/reseed.log'):
-    for l in open('/verif/out/reseed.log'):
+if os.path.exists('/verif/tools/reseed_last.log'):
+    for l in open('/verif/tools/reseed_last.log'):
         parts = l.split()
         if len(parts) >= 3:
             res[parts[0]] = " ".join(parts[2:4]) if parts[2].startswith('rc=') else parts[2]
